@@ -50,6 +50,11 @@ CHECKS = {
   note="bounded: depth <=2; normal form = annotations and record-literal entries by key, Value(decimal|ip) == emitted constructor call, nil == empty; unknown extension names rejected by design",
   tech="bounded-exhaustive enumeration of policy ASTs through both codecs with a canonical-form comparison and a differential authorization oracle",
   ref="DESIGN.md §5 C09"),
+ "C11": dict(
+  text="bounded-exhaustive enumeration of sets built from every sequence of length <=5 (quick) / <=6 (thorough) over a 17-value universe constructed to collide in the internal hash, all pairs of sets from sequences of length <=2 / <=3, all pairs of 125 small records and of a 52-value closure (every type, nested sets/records, IP prefixes), each compared with a sorted duplicate-free reference model (Len, Contains for every universe member, Slice/All/Iterate, Equal both ways, ==, contains*, Cedar-text and JSON forms); explicit-state BFS (depth 5 / 7) over constructor-input / accessor-output mutation histories with the invariant that no created value's fingerprint changes",
+  note="bounded: universe of 17 colliding values, sequence length <=6, history depth <=7; reference equality is structural and type-distinguishing",
+  tech="bounded-exhaustive enumeration against a reference set/record model + explicit-state BFS over mutation histories with an immutability invariant",
+  ref="DESIGN.md §5 C11"),
  "C20": dict(
   text="explicit-state BFS over all container operation histories up to the stated depth from 14 initial states, every transition executed on the real PolicySet and compared with a Go-map model and the authorization decision table",
   note="bounded: ids {a, policy1, policy10, policy2}+loaded ids, 5 policy kinds, depth 4 (quick) / 6 (thorough); model = plain Go map",
